@@ -257,6 +257,14 @@ GI_LAYOUTS = {
     "chain": ({"main": "M", "a": "X", "b": "YZ"}, {"main": ["a"], "a": ["b"]}),
     "chain3": ({"main": "M", "a": "X", "b": "Y", "c": "Z"}, {"main": ["a"], "a": ["b", "c"], "b": ["c"]}),
 }
+# the root rule is an alias of an abstract rule of an imported grammar: the root OBJECT is of a rule of a directly / an indirectly imported grammar
+GI_RULES.update({"R": "Model: Wrap;", "W": "Wrap: X | Z;"})
+GI_LAYOUTS.update({
+    "root-direct": ({"main": "R", "a": "WXYZ"}, {"main": ["a"]}),
+    "root-indirect": ({"main": "R", "a": "W", "b": "XYZ"}, {"main": ["a"], "a": ["b"]}),
+    "root-indirect3": ({"main": "R", "a": "W", "b": "X", "c": "YZ"}, {"main": ["a"], "a": ["b", "c"], "b": ["c"]}),
+})
+GI_ROOT_INPUTS = ["x a", "x a { y b }", "z d", "x a { y b z c y i [ y e [ y j z k ] ] } z q"]
 GI_INPUTS = ["x a", "x a { y b }", "x a { y b z c } z d", "x a { y b [ y e z f ] } x g z h", "x a { y b z c y i [ y e [ y j z k ] ] }"]
 
 
@@ -284,7 +292,7 @@ def run_import_case(layout, text):
         if getattr(o, "z", None) is not None:
             out.append(o.z)
         return out
-    mm.register_obj_processors({r: rec(r) for r in ("Model", "X", "Y", "Z")})
+    mm.register_obj_processors({r: rec(r) for r in (("X", "Y", "Z") if layout.startswith("root-") else ("Model", "X", "Y", "Z"))})
     m = mm.model_from_str(text)
     # expected: every object exactly once, children before their container
     exp = []
@@ -293,7 +301,10 @@ def run_import_case(layout, text):
         for c in kids(o):
             walk(c, type(c).__name__)
         exp.append((rule, getattr(o, "name", None)))
-    walk(m, "Model")
+    if layout.startswith("root-"):
+        walk(m, type(m).__name__)  # (no processor is registered for the abstract root rule: the root is not stored in an attribute)
+    else:
+        walk(m, "Model")
     got = [(r, n) for r, n, _ in log]
     bad = []
     if sorted(got, key=str) != sorted(exp, key=str):
@@ -308,9 +319,11 @@ def run_import_case(layout, text):
 
 
 # ---- mixed family: an abstract rule whose alternatives are a common rule and base types / match rules ------------------
-MIXED_GRAMMAR = "Model: vals*=Val[','] ('one' one=Val)?; Val: Sub | FLOAT | STRING | Word; Sub: 'sub' name=ID; Word: /w\\d/;"
-MIXED_ELEMS = ["sub a", "1.5", '"x"', "w7"]
-MIXED_PROCS = [("Val",), ("Sub",), ("Val", "Sub"), ("Val", "Sub", "Word"), ("Val", "FLOAT")]
+# Decimal: a match rule named like the Python class its processor returns (the documented 'own base type' recipe)
+MIXED_GRAMMAR = ("Model: vals*=Val[','] ('one' one=Val)?; Val: Sub | Decimal | FLOAT | STRING | Word; Sub: 'sub' name=ID; Word: /w\\d/; "
+                 "Decimal: /d\\d+\\.\\d+/;")
+MIXED_ELEMS = ["sub a", "1.5", '"x"', "w7", "d2.50"]
+MIXED_PROCS = [("Val",), ("Sub",), ("Val", "Sub"), ("Val", "Sub", "Word"), ("Val", "FLOAT"), ("Decimal",), ("Val", "Decimal")]
 
 
 def run_mixed_case(elems, procs, replace):
@@ -328,13 +341,27 @@ def run_mixed_case(elems, procs, replace):
                 return float(v)  # a processor of a match rule / base type is a converter: its result is the value
             if rule == "Word":
                 return v
+            if rule == "Decimal":
+                import decimal
+
+                return decimal.Decimal(v[1:]) if isinstance(v, str) else v
         return p
     mm.register_obj_processors({r: rec(r) for r in procs})
     text = " , ".join(elems) + " one " + elems[0]
     obs = {"grammar": MIXED_GRAMMAR, "input": text, "processors_on": list(procs), "Val_processor_replaces": replace}
     m = mm.model_from_str(text)
-    values = {"sub a": "a", "1.5": 1.5, '"x"': "x", "w7": "w7"}
+    import decimal
+
+    values = {"sub a": "a", "1.5": 1.5, '"x"': "x", "w7": "w7", "d2.50": decimal.Decimal("2.50") if "Decimal" in procs else "d2.50"}
     bad = []
+    if "Decimal" in procs:
+        n = sum(1 for e in list(elems) + [elems[0]] if e == "d2.50")
+        if [x for x in log if x[0] == "Decimal"] != [("Decimal", "d2.50")] * n:
+            bad.append(("calls of the match rule Decimal's processor", n, [x for x in log if x[0] == "Decimal"]))
+        if "Val" not in procs or not replace:
+            cur = [v for v in list(m.vals) + [m.one] if isinstance(v, (decimal.Decimal,))]
+            if len(cur) != n or any(v != decimal.Decimal("2.50") for v in cur):
+                bad.append(("Decimal values in the model", n, cur))
     if "Val" in procs:
         want = [("Val", values[e]) for e in list(elems) + [elems[0]]]
         got = [x for x in log if x[0] == "Val"]
@@ -397,7 +424,7 @@ def run(ctx):
         nf += len(fs)
         units += [(fs[i:i + 3], wr, True) for i in range(0, len(fs), 3)]
     ctx.pmap(work, units)
-    ctx.pmap(work_import, [[(l, t)] for l in GI_LAYOUTS for t in GI_INPUTS])
+    ctx.pmap(work_import, [[(l, t)] for l in GI_LAYOUTS for t in (GI_ROOT_INPUTS if l.startswith("root-") else GI_INPUTS)])
     import itertools
 
     mixed = [(el, pr, rp) for n in (1, 2) for el in itertools.product(MIXED_ELEMS, repeat=n) for pr in MIXED_PROCS for rp in (False, True)]
